@@ -13,6 +13,7 @@ import tempfile
 from concurrent.futures import ThreadPoolExecutor
 
 PY = "/venv/bin/python"
+ROOT = os.path.dirname(os.path.dirname(os.path.abspath(__file__)))      # the tree this tool lives in (a `vp run` snapshot, or /verif)
 
 
 def sh(cmd, **kw):
@@ -33,7 +34,7 @@ def one(patch, props, base):
         env = dict(os.environ, BVSTATIC_REPO=d, BVSTATIC_EVIDENCE=ev)
         res = {}
         for p in props:
-            r = sh([PY, "-B", "-m", "bvstatic", p, "--tier", "quick"], cwd="/verif", env=env)
+            r = sh([PY, "-B", "-m", "bvstatic", p, "--tier", "quick"], cwd=ROOT, env=env)
             if r.returncode:
                 fails = [l.strip()[:260] for l in r.stdout.splitlines() if l.strip().startswith("FAIL") or "ANALYSIS-ERROR" in l]
                 res[p] = (r.returncode, fails)
